@@ -38,7 +38,7 @@ def gen_case(seed, tier="quick"):
     nsteps = rng.choice((1, 2, 3, 5, 8, 12)) if tier == "quick" else rng.choice((3, 6, 12, 20))
     steps = []
     kinds = ["slice", "slice", "mask", "intidx", "reshape", "transpose", "viewcls", "viewnd", "copy", "deepcopy", "pickle",
-             "write_col", "write_elem", "write_rows", "flavor", "coordview", "asarray", "element", "objarray", "newaxis", "ravel", "int", "int", "ellipsis", "ellipsis", "copyF", "swapaxes"]
+             "write_col", "write_elem", "write_rows", "flavor", "coordview", "asarray", "element", "objarray", "newaxis", "ravel", "int", "int", "ellipsis", "ellipsis", "copyF", "swapaxes", "dimcast", "dimcast"]
     for _ in range(nsteps):
         k = rng.choice(kinds)
         st = {"s": k, "src": rng.randrange(1 << 16), "r": [rng.randrange(1 << 16) for _ in range(4)]}
@@ -59,13 +59,14 @@ def _viol(aspect, i, st, detail):
 
 
 class Live:
-    __slots__ = ("arr", "twin", "mom", "origin")
+    __slots__ = ("arr", "twin", "mom", "origin", "dim")
 
-    def __init__(self, arr, twin, mom, origin):
+    def __init__(self, arr, twin, mom, origin, dim=None):
         self.arr = arr      # the vector array
         self.twin = twin    # plain numpy structured array with generic field names: the model
         self.mom = mom
         self.origin = origin
+        self.dim = dim      # dimension of the vector class (a view-cast to a lower-dimensional class keeps the other fields as extras)
 
 
 def _plain(vector, case):
@@ -107,20 +108,21 @@ def check_array(vector, L, i, st, viol, case, deep=True):
     import vector.backends.object as vob
 
     a, t = L.arr, L.twin
-    gn = case["gnames"]
-    dim = len(gn)
+    gn_all = case["gnames"]
+    dim = L.dim or len(gn_all)
+    gn = gn_all[:dim]
     want_cls = getattr(vector, f"{'Momentum' if L.mom else 'Vector'}Numpy{dim}D")
     if type(a) is not want_cls:
         viol.append(_viol("array-class", i, st, f"{type(a).__name__} expected {want_cls.__name__} ({L.origin})"))
         return False
     real_dt = numpy.ndarray.dtype.__get__(a)
-    if _generic(real_dt.names) != tuple(gn):
-        viol.append(_viol("dtype-names", i, st, f"{real_dt.names} expected {tuple(gn)} ({L.origin})"))
+    if _generic(real_dt.names) != tuple(gn_all):
+        viol.append(_viol("dtype-names", i, st, f"{real_dt.names} expected {tuple(gn_all)} ({L.origin})"))
         return False
     if a.shape != t.shape:
         viol.append(_viol("shape", i, st, f"{a.shape} expected {t.shape} ({L.origin})"))
         return False
-    if a.view(numpy.ndarray).tobytes() != t.tobytes() or [real_dt[g] for g in gn] != [t.dtype[g] for g in gn]:
+    if a.view(numpy.ndarray).tobytes() != t.tobytes() or [real_dt[q] for q in range(len(gn_all))] != [t.dtype[g] for g in gn_all]:
         viol.append(_viol("values", i, st, f"{a.view(numpy.ndarray)!r} expected {t!r} ({L.origin})"))
         return False
     # coordinate classes re-derived on this view
@@ -138,7 +140,7 @@ def check_array(vector, L, i, st, viol, case, deep=True):
     if not deep:
         return True
     # columns by geometric name and by synonym: the stored column, aliasing the storage
-    for g in gn:
+    for g in gn_all:
         for nm in (g,) + (C.SYN.get(g, ()) if L.mom else ()):
             try:
                 col = a[nm]
@@ -198,7 +200,7 @@ def run_case(case, vector):
     live = [Live(a0, _plain(vector, case), case["mom"], f"construct:{case['how']}")]
     check_array(vector, live[0], -1, st0, viol, case)
 
-    def derive(L, fa, ft, mom=None, origin=""):
+    def derive(L, fa, ft, mom=None, origin="", dim=None):
         """Apply the same derivation to the array and to its plain twin."""
         try:
             na = fa(L.arr)
@@ -220,12 +222,13 @@ def run_case(case, vector):
                 nt = nt.copy()
             elif not numpy.shares_memory(nt, L.twin) and numpy.shares_memory(na.view(numpy.ndarray), L.arr.view(numpy.ndarray)):
                 return None  # cannot model a view where the plain twin had to copy: skip this derivation
-        return Live(na, nt, L.mom if mom is None else mom, origin)
+        return Live(na, nt, L.mom if mom is None else mom, origin, dim if dim is not None else L.dim)
 
     for i, st in enumerate(case["steps"]):
         stats["steps"] += 1
         L = live[st["src"] % len(live)]
         a, t = L.arr, L.twin
+        Ldim = L.dim or dim
         r = st["r"]
         k = st["s"]
         stats["states"].add(f"{'M' if L.mom else 'V'}{dim}D|{'.'.join(SUF[g] for g in gn)}|ndim{a.ndim}|{k}")
@@ -301,8 +304,18 @@ def run_case(case, vector):
             new = derive(L, lambda x: x.view(numpy.ndarray).view(cls), lambda x: x.view(), origin="view(ndarray).view(cls)")
         elif k == "flavor":
             # cast to the other flavor (documented view-cast); names are generic already, numbers must not change
-            cls = getattr(vector, f"{'Vector' if L.mom else 'Momentum'}Numpy{dim}D")
+            cls = getattr(vector, f"{'Vector' if L.mom else 'Momentum'}Numpy{L.dim or dim}D")
             new = derive(L, lambda x: x.view(cls), lambda x: x.view(), mom=not L.mom, origin=f"view({cls.__name__})")
+        elif k == "dimcast":
+            # view-cast to the vector class of a *lower* dimension (the remaining coordinates become extra fields),
+            # in the same or in the other flavor
+            cur = L.dim or dim
+            if cur <= 2:
+                continue
+            nd = 2 + r[0] % (cur - 2)
+            mo = L.mom if r[1] % 2 else (not L.mom)
+            cls = getattr(vector, f"{'Momentum' if mo else 'Vector'}Numpy{nd}D")
+            new = derive(L, lambda x: x.view(cls), lambda x: x.view(), mom=mo, origin=f"view({cls.__name__})", dim=nd)
         elif k == "copy":
             w = r[0] % 2
             fa = (lambda x: x.copy(), lambda x: copy.copy(x))[w]
@@ -349,7 +362,7 @@ def run_case(case, vector):
                 viol.append(_viol("write-raised", i, dict(st, what=nm), f"{k} through {nm!r}: {type(e).__name__}: {e}"))
                 continue
         elif k == "coordview":
-            grp = ("azimuthal", "longitudinal", "temporal")[r[0] % min(dim - 1, 3)]
+            grp = ("azimuthal", "longitudinal", "temporal")[r[0] % min(Ldim - 1, 3)]
             try:
                 c = getattr(a, grp)
             except Exception as e:
@@ -388,16 +401,16 @@ def run_case(case, vector):
             except Exception as e:
                 viol.append(_viol("object-array-form-raised", i, st, f"{type(e).__name__}: {e}"))
                 continue
-            wcls = getattr(vector, f"{'Momentum' if L.mom else 'Vector'}Numpy{dim}D")
+            wcls = getattr(vector, f"{'Momentum' if L.mom else 'Vector'}Numpy{Ldim}D")
             for nm, oa in arrs:
                 rdt = numpy.ndarray.dtype.__get__(oa)
-                if type(oa) is not wcls or _generic(rdt.names) != tuple(gn):
+                if type(oa) is not wcls or _generic(rdt.names) != tuple(gn[:Ldim]):
                     viol.append(_viol("object-array-form-class", i, dict(st, what=nm), f"{type(oa).__name__}{rdt.names} expected {wcls.__name__}{tuple(gn)}"))
                     continue
-                for g, fld in zip(gn, rdt.names):
+                for g, fld in zip(gn[:Ldim], rdt.names):
                     if float(numpy.asarray(oa.view(numpy.ndarray)[fld]).ravel()[0]) != float(t[idx][g]):
                         viol.append(_viol("object-array-form-values", i, dict(st, what=nm), f"{g}: {oa.view(numpy.ndarray)[g]} expected {t[idx][g]}"))
-            if type(plain) is not numpy.ndarray or _generic(plain.dtype.names) != tuple(gn):
+            if type(plain) is not numpy.ndarray or _generic(plain.dtype.names) != tuple(gn[:Ldim]):
                 viol.append(_viol("object-asarray", i, st, f"{type(plain).__name__} {plain.dtype}"))
             continue
         if new is not None:
